@@ -303,7 +303,11 @@ func (c *fsCache) initialize(appname string) error {
 	}
 	c.fn = fragmentingFileNamer()
 	c.fnk = fragmentingFileNameKeyer()
-	c.dw = dirWalkerFunc(filepath.WalkDir)
+	// Walk relative to the root (openat-style) instead of by absolute path: the path of a
+	// very long (fragmented) key exceeds PATH_MAX, and one such key would break every listing.
+	c.dw = dirWalkerFunc(func(_ string, fn fs.WalkDirFunc) error {
+		return fs.WalkDir(c.root.FS(), ".", fn)
+	})
 	c.timeout = cmp.Or(c.timeout, defaultTimeout)
 
 	return nil
